@@ -32,7 +32,7 @@ HOSTS = [("reg", "example.com"), ("idn", "bücher.example"), ("idn2", "例え.jp
          ("idn-zwnj", "نامه\u200cای.com"), ("idn-zwj", "ශ්\u200dරී.com"),
          # IP literals whose ZONE looks like something the IDNA decoder would touch (an xn-- label, dots), an A-label ending in a digit,
          # an IPvFuture literal: IP literals are shown as they are
-         ("idn-dotless", "bücher"), ("idn-tld", "рф"), ("idn-dotless-cjk", "例え"), ("ipv6zone-alabel", "fe80::a%x.xn--e1afmkfd.y"), ("ipv6zone-dots", "fe80::b%eth0.100"), ("alabel-digit", "xn--e1afmkfd.xn--p1ai9")]
+         ("idn-after-www", "www.münchen.de"), ("idn-after-1", "m.пример.example.org"), ("idn-after-2", "de.сайт.com"), ("idn-after-ab", "a.b.bücher.example"), ("idn-dotless", "bücher"), ("idn-tld", "рф"), ("idn-dotless-cjk", "例え"), ("ipv6zone-alabel", "fe80::a%x.xn--e1afmkfd.y"), ("ipv6zone-dots", "fe80::b%eth0.100"), ("alabel-digit", "xn--e1afmkfd.xn--p1ai9")]
 DEFAULT = {"http": 80, "https": 443, "ws": 80, "wss": 443, "ftp": 21}
 
 # parts also run by 4 threads at once in one process (runner adds the jobs; see yv/ctx.py Ctx.threaded)
